@@ -42,6 +42,23 @@ impl TypeInfo for HandB {
             )
     }
 }
+/// user-defined order markers that merely share their NAMES with bitvec's
+pub mod marker {
+    use crate::prelude::*;
+    #[derive(TypeInfo)]
+    pub struct Lsb0;
+    #[derive(TypeInfo)]
+    pub struct Msb0 {
+        pub tag: u8,
+    }
+}
+pub struct HandBits<O>(pub PhantomData<O>);
+impl<O: TypeInfo + 'static> TypeInfo for HandBits<O> {
+    type Identity = Self;
+    fn type_info() -> Type {
+        Type::new(Path::new("HandBits", "fp::hand"), vec![TypeParameter::new("O", Some(meta_type::<O>()))], scale_info::TypeDefBitSequence::new::<u8, O>(), Vec::<&'static str>::new())
+    }
+}
 pub struct HandC;
 impl TypeInfo for HandC {
     type Identity = Self;
@@ -186,7 +203,7 @@ pub struct InnerLt<'a>(pub &'a str);
     b += ['    v', '}']
     progs.write_if_changed(os.path.join(FP, 'src', 'builtin.rs'), '\n'.join(b) + '\n')
     progs.write_if_changed(os.path.join(FP, 'src', 'hand.rs'), '#![allow(dead_code, unused_imports)]\nuse crate::prelude::*;\nuse scale_info::{build::{Fields, Variants}, Path, Type, TypeParameter};\n' + HAND +
-                           '\npub fn metas() -> Vec<MetaType> { vec![meta_type::<HandA>(), meta_type::<HandB>(), meta_type::<HandC>(), meta_type::<PhantomData<u8>>()] }\n')
+                           '\npub fn metas() -> Vec<MetaType> { vec![meta_type::<HandA>(), meta_type::<HandB>(), meta_type::<HandC>(), meta_type::<PhantomData<u8>>(), meta_type::<HandBits<marker::Lsb0>>(), meta_type::<HandBits<marker::Msb0>>(), meta_type::<marker::Lsb0>()] }\n')
     progs.write_if_changed(os.path.join(FP, 'src', 'main.rs'), '''#![allow(dead_code, unused_imports)]
 mod builtin;
 mod derived;
@@ -214,7 +231,33 @@ fn section(name: &str, metas: Vec<MetaType>) {
     third.retain(|i| i % 3 == 1);
     println!("section {name}+retain-third roots={n} types={} {}", third.types.len(), hex(&third.encode()));
 }
+/// a registry assembled at run time: values that differ ONLY in documentation are different values
+fn builder_section() {
+    use scale_info::{form::PortableForm, Field, Path, PortableRegistryBuilder, Type, TypeDefComposite, TypeDefPrimitive, TypeDefVariant, Variant};
+    let s = |x: &str| x.to_string();
+    let path = |x: &str| Path::<PortableForm>::from_segments_unchecked([s(x)]);
+    let mut b = PortableRegistryBuilder::new();
+    let mut ids = vec![];
+    ids.push(b.register_type(Type::new(path("P"), vec![], TypeDefPrimitive::U8, vec![])));
+    ids.push(b.register_type(Type::new(path("P"), vec![], TypeDefPrimitive::U8, vec![s("doc")])));
+    ids.push(b.register_type(Type::new(path("P"), vec![], TypeDefPrimitive::U8, vec![s("other doc")])));
+    let f = |d: Vec<String>| Field::<PortableForm>::new(Some(s("f")), 0u32.into(), Some(s("u8")), d);
+    ids.push(b.register_type(Type::new(path("S"), vec![], TypeDefComposite::new(vec![f(vec![])]), vec![])));
+    ids.push(b.register_type(Type::new(path("S"), vec![], TypeDefComposite::new(vec![f(vec![s("field doc")])]), vec![])));
+    let v = |d: Vec<String>| Variant::<PortableForm>::new(s("V"), vec![], 0, d);
+    ids.push(b.register_type(Type::new(path("E"), vec![], TypeDefVariant::new(vec![v(vec![])]), vec![])));
+    ids.push(b.register_type(Type::new(path("E"), vec![], TypeDefVariant::new(vec![v(vec![s("variant doc")])]), vec![])));
+    ids.push(b.register_type(Type::new(path("Last"), vec![], TypeDefPrimitive::Bool, vec![])));
+    ids.push(b.register_type(Type::new(path("P"), vec![], TypeDefPrimitive::U8, vec![s("doc")])));
+    let p = b.finish();
+    // the ids returned are folded into the registry as one more entry (a tuple of them), so that one hex string carries both
+    let mut p = p;
+    let n = p.types.len() as u32;
+    p.types.push(scale_info::PortableType::new(n, Type::new(path("ReturnedIds"), vec![], scale_info::TypeDefTuple::new_portable(ids.iter().map(|i| (*i).into()).collect::<Vec<_>>()), vec![])));
+    println!("section builder roots={} types={} {}", ids.len(), p.types.len(), hex(&p.encode()));
+}
 fn main() {
+    builder_section();
     section("builtin", builtin::metas());
     section("derived", derived::metas());
     section("handwritten", hand::metas());
